@@ -639,6 +639,54 @@ theorem every_hop_host_and_credentials (cfg : Cfg) (hj : cfg.useJar = false)
     exact ⟨Or.inl hr, Or.inl ha⟩
   · intro h hh; cases hh
 
+/-! ### the basic-authentication text never holds a line break -/
+
+theorem b64Char_ok (n : Nat) : b64Char n ≠ 13 ∧ b64Char n ≠ 10 := by
+  unfold b64Char
+  simp only []
+  split
+  · omega
+  · split
+    · omega
+    · split
+      · omega
+      · split <;> omega
+
+theorem b64_noBreak : ∀ (b : Bytes), NoBreak (b64 b)
+  | [] => by unfold b64 NoBreak; simp
+  | [a] => by
+    unfold b64 NoBreak
+    have h1 := b64Char_ok (a / 4); have h2 := b64Char_ok (a % 4 * 16)
+    simp only [List.mem_cons, List.not_mem_nil, or_false, not_or]
+    exact ⟨⟨h1.1.symm, h2.1.symm, by omega, by omega⟩, ⟨h1.2.symm, h2.2.symm, by omega, by omega⟩⟩
+  | [a, b] => by
+    unfold b64 NoBreak
+    have h1 := b64Char_ok (a / 4); have h2 := b64Char_ok (a % 4 * 16 + b / 16); have h3 := b64Char_ok (b % 16 * 4)
+    simp only [List.mem_cons, List.not_mem_nil, or_false, not_or]
+    exact ⟨⟨h1.1.symm, h2.1.symm, h3.1.symm, by omega⟩, ⟨h1.2.symm, h2.2.symm, h3.2.symm, by omega⟩⟩
+  | a :: b :: c :: t => by
+    have ih := b64_noBreak t
+    unfold b64
+    have h1 := b64Char_ok (a / 4); have h2 := b64Char_ok (a % 4 * 16 + b / 16)
+    have h3 := b64Char_ok (b % 16 * 4 + c / 64); have h4 := b64Char_ok (c % 64)
+    unfold NoBreak at ih ⊢
+    simp only [List.mem_append, List.mem_cons, List.not_mem_nil, or_false, not_or]
+    exact ⟨⟨⟨h1.1.symm, h2.1.symm, h3.1.symm, h4.1.symm⟩, ih.1⟩, ⟨⟨h1.2.symm, h2.2.symm, h3.2.symm, h4.2.symm⟩, ih.2⟩⟩
+
+/-- `basic_auth_single_line`: for EVERY user name and password (any length, any characters) the
+Authorization text `Basic <base64>` holds no CR and no LF — the hypothesis on field values that
+`request_shape` needs is met by the credentials field. -/
+theorem basic_auth_single_line (user pass : Str) : NoBreak (basicAuth user pass) := by
+  unfold basicAuth
+  have h := b64_noBreak (utf8Replace (user ++ [58] ++ pass))
+  have h0 : NoBreak (lit "Basic ") := by decide
+  unfold NoBreak at *
+  simp only [List.mem_append, not_or]
+  exact ⟨⟨h0.1, h.1⟩, ⟨h0.2, h.2⟩⟩
+
+/-- non-vacuity: 60 bytes of credentials (where a line-wrapping encoder would break the line) -/
+example : (basicAuth (List.replicate 40 117) (List.replicate 19 112)).length = 6 + 80 := by decide
+
 /-! ### the request target of every hop, with and without a proxy -/
 
 theorem hasField_setField_host (f : Fields) (v : Str) : hasField (setField f (lit "Host") v) (lit "Host") = true := by
